@@ -10,12 +10,13 @@ PROP = dict(
           "whole process. Every exchange is a generated spec kept in a mutex-protected table shared with the handler; the request path carries "
           "the spec id; the handler compares method, percent-decoded path, every query value, every header (looked up in a different letter case) "
           "and the body bytes with the spec and produces the spec's response (put(ByteArray) / put(String) / put(Var) / put(File) / "
-          "setHeader(Content-Length)+write() in pieces / nothing); the client compares status code, headers, body bytes (json() for Var bodies; "
+          "setHeader(Content-Length)+write() in pieces / setHeader(Transfer-Encoding: chunked)+write() in pieces or in ONE call up to 512 KiB, read until the connection ends (request carries Connection: close; de-chunked by the library client and by the reference reader) / nothing); the client compares status code, headers, body bytes (json() for Var bodies; "
           "206 + Content-Range + exact slice for ranges) and its own token. Clients: Http::request, get/post/put/patch/delet with ByteArray, String, "
           "Var and File bodies, Http::download and Http::upload (plain and multipart), and a raw-socket client from an independent HTTP "
           "writer/reader (ref_http.h) sending Content-Length or chunked requests in 7 fragmentation shapes (one piece, head|body, head byte by "
           "byte, random cuts, cuts inside the blank line, cuts at chunk-size lines, everything byte by byte), HTTP/1.0 and 1.1, 'Connection: close' "
-          "(then nothing may follow the response) or several requests one after the other on a kept-alive connection (then no byte may follow a "
+          "(then nothing may follow the response), optionally with 'Expect: 100-continue' (with a Content-Length, chunked, or Content-Length: 0; the body "
+          "is sent after the interim 100 Continue or after 3 s; any other status before the body is a failure) or several requests one after the other on a kept-alive connection (then no byte may follow a "
           "response). The chunked/fragmented RESPONSE direction and the bytes the library client emits are checked with an independent reference "
           "server answering the library client. Enumerated: every body length 0..2048 in both directions for 3 client kinds; +-8 around 16000, "
           "16382, 32000, 65536, 128000, 144000, 256000 and sampled lengths up to 300 KiB, 1 MiB (thorough: EVERY length 0..300 KiB split over the "
@@ -31,7 +32,7 @@ PROP = dict(
           "(client kind, method, both lengths, framing, fragmentation shape, response mode, range, concurrency class, header/query counts)."),
     assumptions=["loopback TCP; partial sends/segment coalescing are provoked by sizes and fragmentation, not controlled",
                  "inputs outside the statement are not generated: '..' in paths (removed by the server on purpose), NUL in paths/queries/headers, "
-                 "header values with leading/trailing blanks or control characters, duplicate header names, OPTIONS/HEAD, Expect: 100-continue, "
+                 "header values with leading/trailing blanks or control characters, duplicate header names, OPTIONS/HEAD, "
                  "pipelined requests, request targets with '#', ranges with e >= size or without '-' (C09's domain); 301/302/307/308 only with "
                  "setFollowRedirects(false); JSON documents avoid control characters in strings and '/' in keys (C05/C06 findings)",
                  "an exchange that fails after stalling for more than 5 s (expected: ~1 ms; the library has internal 10 s/60 s waits) is repeated once and "
